@@ -49,13 +49,6 @@ Proof.
   intros H. unfold dict_norm. rewrite dict_norm_acc; [reflexivity | exact H | intros; reflexivity].
 Qed.
 
-Fixpoint dicts_ok (v : value) : bool :=
-  match v with
-  | VList l => forallb dicts_ok l
-  | VDict d => keys_nodup (map fst d) && forallb (fun kv => dicts_ok (snd kv)) d
-  | _ => true
-  end.
-
 Lemma map_id_Forall {A} (f : A -> A) (l : list A) : Forall (fun x => f x = x) l -> map f l = l.
 Proof. induction 1 as [|x l Hx _ IH]; cbn [map]; [reflexivity | rewrite Hx, IH; reflexivity]. Qed.
 
@@ -318,7 +311,7 @@ Section Generic.
   Proof.
     intros Hwf Hd. unfold decode, decode_raw, fuel_for.
     rewrite dec_enc by (try assumption; lia).
-    rewrite value_norm_id by (apply canon_dicts_ok, wfv_dicts_ok; exact Hwf). reflexivity.
+    rewrite canon_dicts_ok by (apply wfv_dicts_ok; exact Hwf). reflexivity.
   Qed.
 End Generic.
 
@@ -337,7 +330,7 @@ Section Total.
   Lemma dec_key_consumes (bs k r : bytes) : dec_key bs = Some (Some (k, r)) -> (length r < length bs)%nat.
   Proof.
     unfold Tlv.dec_key. intros H.
-    destruct (read_head bs) as [h r0| |] eqn:E; try discriminate.
+    destruct (read_head bs) as [h r0| |] eqn:E; try discriminate; try (destruct lax_keys; discriminate).
     pose proof (read_consumes _ _ _ E) as Hc.
     destruct h; try (destruct lax_keys; discriminate); try discriminate;
       (destruct (take n r0) as [[a r1]|] eqn:T; [|discriminate]);
@@ -431,7 +424,8 @@ Section Total.
   Theorem decode_total (bs : bytes) : decode read_head lax_keys bs <> DFuel.
   Proof.
     unfold decode. pose proof (decode_raw_total bs) as H.
-    destruct (decode_raw read_head lax_keys bs); congruence.
+    destruct (decode_raw read_head lax_keys bs) as [v r| | |]; try congruence.
+    destruct (dicts_ok v); discriminate.
   Qed.
 
 End Total.
